@@ -331,11 +331,10 @@ Definition lift (o : option st) (s0 : st) : st * outcome :=
 Definition create (fuel : nat) (has_store : bool) (b : job) (s : st) : st * outcome :=
   let j := njobs s in
   if has_store && store_has (jkey b) (store s) then (s, Raised EKeyError) else
-  let b := with_stored b has_store in
+  (* store.add_job, then link_scheduler: _scheduler = scheduler; update_first(); add_job *)
+  let b := with_linked (with_stored b has_store) true in
   let s := set_njobs (S j) (set_job j b s) in
   let s := if has_store then set_store ((jkey b, j) :: store s) s else s in
-  (* link_scheduler: _scheduler = scheduler; update_first(); add_job *)
-  let s := set_job j (with_linked (jobs s j) true) s in
   let first : st * outcome :=
     match jkind b with
     | KOnce => if too_old s (jexec_t b) then (s, Raised EPast) else (set_next_run j (Some (jexec_t b)) s, Done)
@@ -378,6 +377,7 @@ Definition step_op (fuel : nat) (has_store : bool) (s : st) (o : op) : st * outc
       end
   | OResume j =>
       if is_finished s j then (s, Raised EAlreadyFinished) else
+      if negb (jlinked (jobs s j)) then (s, Raised ENotLinked) else    (* DateTimeJob.update_next *)
       let kp := count_prod j (log s) in
       let s1 := add_ev (EProd j) s in
       match prod E j kp (now s) with
